@@ -488,7 +488,7 @@ impl Sim {
             txs.push(self.build_tx(t));
         }
         // the block id is part of the header so that equal bodies on two forks get distinct hashes
-        let header = HeaderBuilder::default().number(spec.number).nonce((spec.id as u128).pack()).build();
+        let header = HeaderBuilder::default().number(spec.number).epoch(ckb_types::core::EpochNumberWithFraction::new(spec.number / 1000, spec.number % 1000, 1000)).nonce((spec.id as u128).pack()).build();
         let block = BlockBuilder::default().header(header).transactions(txs).build();
         self.block_id.insert(block.hash(), spec.id);
         block
@@ -673,7 +673,8 @@ impl Sim {
                 let tip_before = self.chain.last().map(|b| b.number);
                 let within = match (tip_before, self.floor) {
                     (None, _) => true,
-                    (Some(n), Some(f)) => n > f,
+                    // headers <= f are pruned: rolling back block n must leave header n-1 in place
+                    (Some(n), Some(f)) => n > f + 1,
                     (Some(_), None) => true,
                 };
                 self.idx().rollback().expect("rollback");
@@ -684,6 +685,15 @@ impl Sim {
                     out.count("rollback-beyond-retention");
                 }
                 let ans = self.tip_string(out);
+                if self.oracle_valid && self.chain.is_empty() && tip_before.is_some() {
+                    // the first indexed block was rolled back: no Header row is left. `tip()` does not
+                    // test the key family, so any residue row (ConsumedOutPoint) is decoded as a header.
+                    if ans != "tip none" {
+                        out.oracle_fail("tip-garbage-after-rollback-to-empty", &format!("{} after rolling back the only indexed block", ans));
+                    }
+                    self.oracle_valid = false;
+                    out.count("rollback-to-empty");
+                }
                 if self.oracle_valid {
                     if let Some((tip0, rows0)) = snap {
                         let rows1 = self.answer_rows();
@@ -1130,10 +1140,12 @@ fn gen_case(out: &mut Out, rng: &mut Rng, sim: &mut Sim, steps: usize, probe_kno
         } else if r < 68 {
             // reorg: roll back k blocks (inside the retention), the loop continues with other blocks
             let max_k = match sim.floor {
-                Some(f) => sim.chain.last().map(|b| b.number.saturating_sub(f)).unwrap_or(0),
+                Some(f) => sim.chain.last().map(|b| b.number.saturating_sub(f + 1)).unwrap_or(0),
                 None => sim.chain.len() as u64,
             };
-            let k = rng.range(1, 4).min(max_k).min(sim.chain.len() as u64);
+            // the first indexed block (genesis) is never rolled back by a chain that is followed through reorgs
+            let keep_first = if g.probe_known { 0 } else { 1 };
+            let k = rng.range(1, 4).min(max_k).min((sim.chain.len() as u64).saturating_sub(keep_first));
             if k > 0 {
                 sim.n_reorg += 1;
             }
